@@ -5,7 +5,9 @@ for d in /verif/seeded/*/; do
   id=$(basename $d); prop=${id%-*}
   if ! git -C /repo apply --check $d/patch.diff 2>/dev/null; then echo "$id DOES-NOT-APPLY"; continue; fi
   git -C /repo apply $d/patch.diff
+  cp evidence/$prop.json /tmp/evidence_$prop.keep 2>/dev/null
   out=$(./check $prop --tier quick 2>&1); code=$?
+  cp /tmp/evidence_$prop.keep evidence/$prop.json 2>/dev/null
   git -C /repo checkout -- . ; git -C /repo clean -fdq pyroll 2>/dev/null
   key=$(echo "$out" | grep -E "FAILING INPUT" | head -1 | sed 's/.*FAILING INPUT \[\([^]]*\)\].*/\1/')
   nfi=$(echo "$out" | grep -c "no-failing-input-found")
